@@ -7,7 +7,9 @@
 #include "cc.h"
 enum ppflags ppflags;
 struct token tok;
+#ifndef MAXTOK
 #define MAXTOK 320
+#endif
 static struct token feed[MAXTOK]; static int nfeed, fpos;
 static char *dup(const char *s) { size_t n = strlen(s) + 1; char *p = malloc(n); ASSUME(p != 0); memcpy(p, s, n); return p; }
 static void push(enum tokenkind k, const char *lit, unsigned line) {
@@ -62,22 +64,76 @@ static void *ipool[48][32]; static int nip;
 void *xreallocarray(void *b, size_t n, size_t m) {
 	if (!b && m == sizeof(struct mapkey) && n <= 64 && nkp < 16) return kpool[nkp++];
 	if (!b && m == sizeof(void *) && n <= 64 && nvp < 16) return vpool[nvp++];
-	if (b) PATH_END();          /* table growth beyond 64 entries is outside these skeletons */
+	if (b && (m == sizeof(struct mapkey) || m == sizeof(void *))) PATH_END();          /* table growth beyond 64 entries is outside these skeletons */
+	if (b) {        /* byte/character buffers (string literals) grow by copy */
+		size_t old = __CPROVER_OBJECT_SIZE(b); char *q = malloc(n * m); ASSUME(q != 0);
+		for (size_t i = 0; i < 64; i++) if (i < old && i < n * m) q[i] = ((char *)b)[i];
+		if (old > 64) PATH_END();
+		return q;
+	}
 	void *p = malloc(n * m); ASSUME(p != 0); return p;
 }
 void *realloc(void *p, size_t n) { if (p || n > sizeof ipool[0] || nip >= 48) PATH_END(); return ipool[nip++]; }
 #else
 void *xreallocarray(void *b, size_t n, size_t m) { void *p = realloc(b, n * m); ASSUME(p != 0); return p; }
 #endif
+#ifdef DECODE_DATA
+/* -DDECODE_DATA: the data definitions printed by qbe.c:emitdata are decoded back into a byte image (the last definition wins);
+ * -DSYM_NUMBERS=n: integer literals 1001..1000+n denote the symbolic values symval[0..n-1] (strtoull model below) */
+#include <stdarg.h>
+#define OBJMAX 48
+static unsigned char img[OBJMAX + 8]; static unsigned long long ipos; static int cur_w; static int bad, closed, align_seen = -1, ndefs, instr;
+static void put(unsigned long long v, int w) { for (int i = 0; i < w; i++) { if (ipos < OBJMAX + 8) img[ipos] = v >> (8 * i); ipos++; } }
+static bool streq(const char *a, const char *b) { for (int i = 0; i < 20; i++) { if (a[i] != b[i]) return false; if (!a[i]) return true; } return false; }
+int printf(const char *fmt, ...) {
+	va_list ap; va_start(ap, fmt);
+	if (streq(fmt, "b %u, ")) put(va_arg(ap, unsigned), 1);
+	else if (streq(fmt, "z %llu, ") || streq(fmt, "z %llu ") || streq(fmt, ", z %llu")) { unsigned long long n = va_arg(ap, unsigned long long); if (n == 0 || n > OBJMAX + 8) bad = 1; else ipos += n; }
+	else if (streq(fmt, "%c ")) {
+#ifdef REPLAY
+		int c = (char)va_arg(ap, int);
+#else
+		int c = va_arg(ap, char);      /* CBMC hands a char argument to a user-defined variadic function unpromoted */
+#endif
+		cur_w = c == 'b' ? 1 : c == 'h' ? 2 : c == 'w' ? 4 : c == 'l' ? 8 : 0; if (!cur_w) bad = 1;
+	}
+	else if (streq(fmt, "%llu")) put(va_arg(ap, unsigned long long), cur_w);
+	else if (streq(fmt, "\\%03o")) { if (!instr) bad = 1; put(va_arg(ap, unsigned), 1); }
+	else if (streq(fmt, "%u ")) {
+#ifdef REPLAY
+		put(va_arg(ap, unsigned), cur_w);
+#else
+		if (cur_w == 2) put(va_arg(ap, unsigned short), 2); else put(va_arg(ap, unsigned), cur_w);
+#endif
+	}
+	else if (streq(fmt, " = align %d { ")) { align_seen = va_arg(ap, int); ndefs++; ipos = 0; for (int i = 0; i < OBJMAX + 8; i++) img[i] = 0; }
+	else if (streq(fmt, ".%u")) (void)va_arg(ap, unsigned);
+	else bad = 1;
+	va_end(ap); return 0;
+}
+int fputs(const char *s, FILE *f) { return 0; }
+int puts(const char *s) { if (streq(s, "}")) closed++; else bad = 1; return 0; }
+int putchar(int c) { if (instr) put((unsigned char)c, 1); return c; }
+int fputc(int c, FILE *f) { if (c == '"') instr = !instr; return c; }
+#else
 int printf(const char *fmt, ...) { return 0; }
 int puts(const char *s) { return 0; }
 int fputs(const char *s, FILE *f) { return 0; }
 int putchar(int c) { return c; }
 int fputc(int c, FILE *f) { return c; }
+#endif
+#ifdef SYM_NUMBERS
+static unsigned long long symval[SYM_NUMBERS];
+#endif
 #ifdef RECORD
 /* symbol-table view: what gets defined, with which linkage */
 #define MAXREC 8
 static struct { struct decl *d; int isfunc; int global; } rec[MAXREC]; static int nrec;
+static bool rec_is(int k, int isfunc, const char *name, int global) {        /* functions are identified by emission order only (struct func is private to qbe.c) */
+	if (k >= nrec || k >= MAXREC || rec[k].isfunc != isfunc || rec[k].global != global) return false;
+	if (isfunc || !name) return true;
+	return rec[k].d && rec[k].d->name && strcmp(rec[k].d->name, name) == 0;
+}
 void emitfunc(struct func *f, bool global) { extern struct decl *verif_funcdecl(struct func *); if (nrec < MAXREC) { rec[nrec].d = 0; rec[nrec].isfunc = 1; rec[nrec].global = global; } nrec++; }
 void emitdata(struct decl *d, struct init *i) { if (nrec < MAXREC) { rec[nrec].d = d; rec[nrec].isfunc = 0; rec[nrec].global = d->linkage == LINKEXTERN; } nrec++; }
 #endif
@@ -93,6 +149,9 @@ unsigned long long strtoull(const char *s, char **end, int base) {
 		v = v * base + d; p++;
 	}
 	if (end) *end = (char *)p;
+#ifdef SYM_NUMBERS
+	if (v > 1000 && v <= 1000 + SYM_NUMBERS) return symval[v - 1001];
+#endif
 	return v;
 }
 char *strpbrk(const char *s, const char *accept) {
@@ -108,12 +167,28 @@ double strtod(const char *s, char **end) {
 		else if (c == '.' && !frac) { frac = true; p++; }
 		else break;
 	}
+	if (*p == 'e' || *p == 'E') {      /* decimal exponent */
+		const char *q = p + 1; bool neg = false; int ex = 0;
+		if (*q == '+' || *q == '-') { neg = *q == '-'; q++; }
+		if (*q >= '0' && *q <= '9') {
+			for (int i = 0; i < 4 && *q >= '0' && *q <= '9'; i++, q++) ex = ex * 10 + (*q - '0');
+			for (int i = 0; i < 40 && i < ex; i++) v = neg ? v / 10 : v * 10;
+			p = q;
+		}
+	}
 	if (end) *end = (char *)p;
 	return v;
 }
 #endif
+#if defined(REPLAY) && defined(SYM_NUMBERS)
+#include <inttypes.h>
+unsigned long long strtoull(const char *s, char **end, int base) { unsigned long long v = strtoumax(s, end, base); if (v > 1000 && v <= 1000 + SYM_NUMBERS) return symval[v - 1001]; return v; }
+#endif
 #include "tokens.inc"     /* static void feed_tokens(void) { push(...); ... }  and optional  static void checks(void) */
 int main(void) {
+#ifdef SYM_NUMBERS
+	{ ND_ARR(unsigned long long, symv, SYM_NUMBERS); for (int i = 0; i < SYM_NUMBERS; i++) symval[i] = symv[i]; }
+#endif
 	targinit(TARGETNAME);
 	feed_tokens();
 	next();
